@@ -20,6 +20,7 @@ import (
 	"github.com/wrgl/wrgl/pkg/doctor"
 	"github.com/wrgl/wrgl/pkg/ingest"
 	"github.com/wrgl/wrgl/pkg/objects"
+	"github.com/wrgl/wrgl/pkg/pbar"
 	"github.com/wrgl/wrgl/pkg/sorter"
 )
 
@@ -131,6 +132,7 @@ type IngestOpts struct {
 	RunSize uint64 // 0 = never spill
 	Workers int    // value given to ingest.WithNumWorkers (the code subtracts 2)
 	Delim   rune
+	Bar     pbar.Bar // the progress bar the block workers report to (nil: none, as the library's callers without a terminal)
 }
 
 // Ingest runs the real ingest.IngestTable over CSV bytes.
@@ -150,6 +152,9 @@ func Ingest(db objects.Store, csvBytes []byte, pk []string, o IngestOpts) ([]byt
 	iopts := []ingest.InserterOption{}
 	if o.Workers > 0 {
 		iopts = append(iopts, ingest.WithNumWorkers(o.Workers))
+	}
+	if o.Bar != nil {
+		iopts = append(iopts, ingest.WithProgressBar(o.Bar))
 	}
 	return ingest.IngestTable(db, s, io.NopCloser(bytes.NewReader(csvBytes)), pk, logr.Discard(), iopts...)
 }
